@@ -7,10 +7,14 @@ import (
 	"bytes"
 	"flag"
 	"fmt"
+	"io"
+	"log"
 	"os"
 	"os/exec"
 	"sort"
 	"strings"
+	"syscall"
+	"time"
 )
 
 // Rng is a splitmix64 generator: every random choice of a run derives from one seed.
@@ -93,15 +97,42 @@ func caseSeed(seed uint64, idx int) uint64 { return seed*1000003 + uint64(idx)*7
 
 // runChild executes cases [from,to) in this process, flushing the input before running the code.
 func runChild(prop string, cg caseGen, seed uint64, tier string, from, to int) {
-	w := bufio.NewWriter(os.Stdout)
+	w := bufio.NewWriter(protoOut)
 	for i := from; i < to; i++ {
 		in, run := cg.gen(NewRng(caseSeed(seed, i)), tier, i)
 		fmt.Fprintf(w, "%s %d %d %s", prop, i, seed, in)
 		w.Flush()
-		out := run()
-		fmt.Fprintf(w, " OUT %s\n", out)
-		w.Flush()
+		res := make(chan string, 1)
+		go func() { res <- run() }()
+		select {
+		case out := <-res:
+			fmt.Fprintf(w, " OUT %s\n", out)
+			w.Flush()
+		case <-time.After(caseTimeout):
+			// a hang is an observed output; the process cannot be reused (a goroutine is stuck)
+			fmt.Fprintf(w, " OUT HANG\n")
+			w.Flush()
+			os.Exit(3)
+		}
 	}
+}
+
+var caseTimeout = 20 * time.Second
+
+// protoOut is where protocol lines go.  The real code prints and logs to stdout, so stdout is
+// re-pointed to /dev/null at start-up and the original stdout kept here.
+var protoOut *os.File = os.Stdout
+
+func silenceStdout() {
+	fd, err := syscall.Dup(1)
+	if err != nil {
+		return
+	}
+	protoOut = os.NewFile(uintptr(fd), "proto")
+	if null, err := os.OpenFile(os.DevNull, os.O_WRONLY, 0); err == nil {
+		syscall.Dup2(int(null.Fd()), 1)
+	}
+	log.SetOutput(io.Discard)
 }
 
 func panicClass(stderr string) string {
@@ -166,8 +197,46 @@ func runParent(prop string, cg caseGen, seed uint64, tier string, w *bufio.Write
 					acc.Write(out)
 					break
 				}
-				// crashed: the last line is incomplete (input only)
+				// crashed.  Usually the last line is incomplete (input only).  It can also be complete:
+				// after a HANG, or when a panicking worker goroutine ran its deferred wg.Done() and the
+				// main goroutine finished the case before the runtime tore the process down.
 				idx := bytes.LastIndexByte(out, '\n')
+				if idx == len(out)-1 && idx >= 0 {
+					prev := bytes.LastIndexByte(out[:idx], '\n')
+					lastLine := string(out[prev+1 : idx])
+					f := strings.Fields(lastLine)
+					if len(f) < 2 {
+						fmt.Fprintf(os.Stderr, "child crashed, unparsable last line: %s\n", se.String())
+						break
+					}
+					var id int
+					fmt.Sscan(f[1], &id)
+					if strings.HasSuffix(lastLine, " OUT HANG") {
+						acc.Write(out)
+					} else {
+						// re-run that case alone: a crash there is attributed to it
+						acc.Write(out[:prev+1])
+						one := exec.Command(self, "-child", "-seed", fmt.Sprint(seed), "-tier", tier,
+							"-from", fmt.Sprint(id), "-to", fmt.Sprint(id+1), prop)
+						var so1, se1 bytes.Buffer
+						one.Stdout, one.Stderr = &so1, &se1
+						if err1 := one.Run(); err1 != nil {
+							in := lastLine
+							if k := strings.Index(in, " OUT "); k >= 0 {
+								in = in[:k]
+							}
+							acc.WriteString(in + " OUT PANIC " + panicClass(se1.String()) + "\n")
+						} else {
+							acc.WriteString(lastLine + "\n")
+						}
+					}
+					next = id + 1
+					crashes++
+					if crashes > 200 {
+						break
+					}
+					continue
+				}
 				acc.Write(out[:idx+1])
 				last := string(out[idx+1:])
 				f := strings.Fields(last)
@@ -177,6 +246,9 @@ func runParent(prop string, cg caseGen, seed uint64, tier string, w *bufio.Write
 				}
 				var id int
 				fmt.Sscan(f[1], &id)
+				if k := strings.Index(last, " OUT "); k >= 0 { // died while writing the output
+					last = last[:k]
+				}
 				acc.WriteString(last + " OUT PANIC " + panicClass(se.String()) + "\n")
 				next = id + 1
 				crashes++
@@ -205,6 +277,7 @@ func main() {
 	from := flag.Int("from", 0, "internal")
 	to := flag.Int("to", 0, "internal")
 	flag.Parse()
+	silenceStdout()
 	if flag.NArg() < 1 {
 		names := []string{}
 		for k := range gens {
@@ -228,7 +301,7 @@ func main() {
 		fmt.Fprintln(os.Stderr, "unknown property", prop)
 		os.Exit(2)
 	}
-	f := os.Stdout
+	f := protoOut
 	if *outp != "-" {
 		var err error
 		f, err = os.Create(*outp)
